@@ -359,3 +359,200 @@ Definition context_from_json (ty : option sty) (j : json) : jr (list (str * rval
   | RRecord l => if rval_evaluable v then JOk l else JErr EEval
   | _ => JErr ENotARecord
   end.
+
+(* the context serialiser with the repair proposed for C10:context_top_level_reserved_key: the
+   top-level keys are checked like the keys of any nested record *)
+Definition context_to_json_fixed (pairs : list (str * rval)) : jr json :=
+  if existsb reserved_key (map fst pairs) then JErr EReservedKey else context_to_json pairs.
+
+(* ================================================================ entity level *)
+(* entities.rs: EntityJson, EntityJson::from_entity, EntityJsonParser::parse_ejson.
+   `je_anc`: for an entity taken from a store these are ALL its ancestors (from_entity writes
+   entity.ancestors() under "parents"); the parser stores what it reads as the parents. *)
+Record jentity := mkJentity {
+  je_uid : juid;
+  je_attrs : list (str * rval);
+  je_tags : list (str * rval);
+  je_anc : list juid }.
+
+Definition k_uid : str := s2str "uid".
+Definition k_attrs : str := s2str "attrs".
+Definition k_parents : str := s2str "parents".
+Definition k_tags : str := s2str "tags".
+
+(* EntityJson::from_entity + Serialize (tags skipped when empty).  Field order of the tree: key-sorted *)
+Definition entity_to_json (e : jentity) : jr json :=
+  dj attrs <- jmapV value_to_json (je_attrs e);
+  dj tags <- jmapV value_to_json (je_tags e);
+  JOk (JObj ([(k_attrs, JObj attrs); (k_parents, JArr (map juid_json (je_anc e)))]
+             ++ (match tags with [] => [] | _ => [(k_tags, JObj tags)] end)
+             ++ [(k_uid, juid_json (je_uid e))])).
+
+(* what the schema says about one entity type (EntityTypeDescription) *)
+Record einfo := mkEinfo {
+  ei_attrs : list (str * (sty * bool));
+  ei_open : bool;
+  ei_tags : option sty }.
+
+Definition eschema := list (str * einfo).     (* by entity type name *)
+
+(* EntityType::is_action: the basename is `Action` *)
+Definition is_action_type (t : str) : bool :=
+  match split_path t [] with
+  | Some comps => str_eqb (last comps []) (s2str "Action")
+  | None => false
+  end.
+
+(* additional error classes of the entity level are mapped onto jerr: *)
+(*   EUnexpectedRecordAttr is NOT reused: entity-level classes are separate constructors *)
+Inductive eerr :=
+| EJ (e : jerr)                 (* an error of the value layer *)
+| EUnexpectedEntityType | EUnexpectedEntityAttr | EUnexpectedEntityTag | EActionParent.
+
+Inductive er (A : Type) := EOk (a : A) | EErr (e : eerr).
+Arguments EOk {A} a.
+Arguments EErr {A} e.
+Definition ebind {A B} (r : er A) (f : A -> er B) : er B :=
+  match r with EOk a => f a | EErr e => EErr e end.
+Notation "'de' x <- r ; k" := (ebind r (fun x => k)) (at level 200, x name, r at level 100, k at level 200).
+Definition lift {A} (r : jr A) : er A := match r with JOk a => EOk a | JErr e => EErr (EJ e) end.
+
+Definition emapM {A B} (f : A -> er B) : list A -> er (list B) :=
+  fix go (l : list A) : er (list B) :=
+    match l with
+    | [] => EOk []
+    | x :: l' => de y <- f x; de ys <- go l'; EOk (y :: ys)
+    end.
+
+(* how the attributes / tags of this entity are parsed *)
+Inductive einfo_sel := NoSchemaInfo | NonAction (i : einfo).
+
+Definition parse_attr (sel : einfo_sel) (kv : str * json) : er (str * rval) :=
+  match sel with
+  | NoSchemaInfo => de v <- lift (parse_generic (snd kv)); EOk (fst kv, v)
+  | NonAction i =>
+      match lookup (fst kv) (ei_attrs i) with
+      | Some (t, _) => de v <- lift (parse_ty t (snd kv)); EOk (fst kv, v)
+      | None => if ei_open i then de v <- lift (parse_generic (snd kv)); EOk (fst kv, v)
+                else EErr EUnexpectedEntityAttr
+      end
+  end.
+
+Definition parse_tag (sel : einfo_sel) (kv : str * json) : er (str * rval) :=
+  match sel with
+  | NoSchemaInfo => de v <- lift (parse_generic (snd kv)); EOk (fst kv, v)
+  | NonAction i =>
+      match ei_tags i with
+      | Some t => de v <- lift (parse_ty t (snd kv)); EOk (fst kv, v)
+      | None => EErr EUnexpectedEntityTag
+      end
+  end.
+
+Definition parse_parent (uid : juid) (pj : json) : er juid :=
+  de p <- lift (parse_entity_ref pj);
+  if is_action_type (jty uid) && negb (is_action_type (jty p)) then EErr EActionParent else EOk p.
+
+(* Deserialize for EntityJson (a map; unknown fields ignored; uid, attrs, parents required, tags
+   optional) followed by parse_ejson and Entity::new (evaluation of the attribute expressions).
+   The attribute / tag maps are hash maps in the code: the model goes through them in tree order,
+   so only accept/reject and the value are deterministic, not WHICH error is reported first. *)
+Definition entity_from_json (schema : option eschema) (j : json) : er jentity :=
+  match j with
+  | JObj o =>
+      match lookup k_uid o, lookup k_attrs o, lookup k_parents o with
+      | Some uj, Some (JObj aj), Some (JArr pj) =>
+          match match lookup k_tags o with
+                | None => Some []
+                | Some (JObj tj) => Some tj
+                | Some _ => None
+                end with
+          | None => EErr (EJ ESerde)
+          | Some tj =>
+              de uid <- lift (parse_entity_ref uj);
+              de sel <- match schema with
+                        | None => EOk NoSchemaInfo
+                        | Some sch =>
+                            if is_action_type (jty uid) then EOk NoSchemaInfo
+                            else match lookup (jty uid) sch with
+                                 | Some i => EOk (NonAction i)
+                                 | None => EErr EUnexpectedEntityType
+                                 end
+                        end;
+              de attrs <- emapM (parse_attr sel) aj;
+              de tags <- emapM (parse_tag sel) tj;
+              de parents <- emapM (parse_parent uid) pj;
+              if forallb (fun kv => rval_evaluable (snd kv)) attrs && forallb (fun kv => rval_evaluable (snd kv)) tags
+              then EOk (mkJentity uid attrs tags parents)
+              else EErr (EJ EEval)
+          end
+      | _, _, _ => EErr (EJ ESerde)
+      end
+  | _ => EErr (EJ ESerde)
+  end.
+
+(* ================================================================ store level *)
+(* Entities::to_json_value / EntityJsonParser::from_json_value + Entities::from_entities with
+   TCComputation::ComputeNow.  Conformance validation against the schema (C11) is not part of
+   this model; `actions` are the schema's action entities (Schema::action_entities). *)
+Definition juid_eqb (a b : juid) : bool := str_eqb (jty a) (jty b) && str_eqb (jid a) (jid b).
+Definition juid_mem (u : juid) (l : list juid) : bool := existsb (juid_eqb u) l.
+Fixpoint juid_dedup (l : list juid) : list juid :=
+  match l with
+  | [] => []
+  | u :: l' => if juid_mem u l' then juid_dedup l' else u :: juid_dedup l'
+  end.
+
+Definition find_entity (u : juid) (st : list jentity) : option jentity :=
+  find (fun e => juid_eqb (je_uid e) u) st.
+
+Definition store_to_json (st : list jentity) : jr json :=
+  dj js <- jmapM entity_to_json st; JOk (JArr js).
+
+(* one round of "ancestors of my ancestors are my ancestors" *)
+Definition anc_step (st : list jentity) (a : list juid) : list juid :=
+  juid_dedup (a ++ flat_map (fun p => match find_entity p st with Some e => je_anc e | None => [] end) a).
+
+Fixpoint anc_iter (n : nat) (st : list jentity) (a : list juid) : list juid :=
+  match n with O => a | S n' => anc_iter n' st (anc_step st a) end.
+
+Inductive serr := SE (e : eerr) | SDuplicate | SCycle.
+Inductive sr (A : Type) := SOk (a : A) | SErr (e : serr).
+Arguments SOk {A} a.
+Arguments SErr {A} e.
+
+Fixpoint has_dup_uid (l : list jentity) : bool :=
+  match l with
+  | [] => false
+  | e :: l' => existsb (fun e' => juid_eqb (je_uid e) (je_uid e')) l' || has_dup_uid l'
+  end.
+
+(* compute_tc with enforce_dag: every entity gets the closure of its parents through the
+   entities present; an entity that reaches itself is a cycle *)
+Definition close_store (st : list jentity) : sr (list jentity) :=
+  let closed := map (fun e => mkJentity (je_uid e) (je_attrs e) (je_tags e)
+                                 (anc_iter (List.length st) st (juid_dedup (je_anc e)))) st in
+  if existsb (fun e => juid_mem (je_uid e) (je_anc e)) closed then SErr SCycle else SOk closed.
+
+Definition store_from_json (schema : option eschema) (actions : list jentity) (j : json) : sr (list jentity) :=
+  match j with
+  | JArr l =>
+      match emapM (entity_from_json schema) l with
+      | EErr e => SErr (SE e)
+      | EOk es =>
+          (* create_entity_map (duplicates), compute_tc, then entity_map.extend(schema actions):
+             an action entity of the schema replaces an equal-uid entity of the document (which the
+             conformance check, not modelled here, has required to be equal to it) *)
+          if has_dup_uid es then SErr SDuplicate else
+          match close_store es with
+          | SErr e => SErr e
+          | SOk closed =>
+              match schema with
+              | None => SOk closed
+              | Some _ =>
+                  SOk (filter (fun e => negb (existsb (fun a => juid_eqb (je_uid e) (je_uid a)) actions)) closed
+                       ++ actions)
+              end
+          end
+      end
+  | _ => SErr (SE (EJ ESerde))
+  end.
